@@ -52,7 +52,7 @@ def export_names(kind, tpl, n, i0, i1, j0, j1):
     import io
 
     with contextlib.redirect_stdout(io.StringIO()):
-        nodes = get_functions_and_classes([], False, False, emit_name, all_, iter(mapping), name_tpl, True, "class")
+        nodes = list(get_functions_and_classes([], False, False, emit_name, all_, iter(mapping), name_tpl, True, "class"))
     if len(nodes) != n or len(all_) != n:
         return "generated %d symbols and %d __all__ entries for %d input entries" % (len(nodes), len(all_), n)
     for k in range(n):
@@ -116,3 +116,57 @@ def no_clobber(exists, phase):
 
 ob("C19", "K2.no_clobber", {"exists": BOOL, "phase": R(0, 1)}, T=120, funcs=["cdd.__main__.main"],
    bound="cdd.__main__.main(['gen', ...]) with os.path.isfile(output) answered by the solver and gen() monitored; phases 0/1")(no_clobber)
+
+
+# K3: the module gen assembles defines one symbol per entry and __all__ lists exactly those, with import inference on/off ---------
+SRC2 = "class %s(object):\n    \'\'\'\n    Doc.\n\n    :cvar a: an a\n    \'\'\'\n    a: Optional[int] = 5\n"
+
+
+def module_defines(kind, infer, n, i0, i1):
+    import contextlib
+    import io
+
+    from cdd.compound.gen_utils import gen_module
+
+    names = ["Alpha", ch(i0) + ch(i1)][:n] if n == 2 else [ch(i0) + ch(i1)]
+    if n == 2 and names[0] == names[1]:
+        return ""
+    mapping = [(nm, ast.parse(SRC2 % ("Src%d" % k)).body[0]) for k, nm in enumerate(names)]
+    emit_name = KINDS[0]
+    for k in (1, 2):
+        if kind == k:
+            emit_name = KINDS[k]
+    with contextlib.redirect_stdout(io.StringIO()):
+        try:
+            mod = gen_module(decorator_list=[], emit_and_infer_imports=infer, emit_call=False, emit_default_doc=False, emit_name=emit_name,
+                             functions_and_classes=None, imports="", input_mapping_it=iter(mapping), name_tpl="{name}Cfg", no_word_wrap=True,
+                             parse_name="class", prepend=None)
+        except Exception as e:
+            return "gen_module raised %s: %s" % (type(e).__name__, e)
+    defined = [nd.name for nd in mod.body if isinstance(nd, (ast.ClassDef, ast.FunctionDef))]
+    alls = []
+    for nd in mod.body:
+        if isinstance(nd, ast.Assign) and any(isinstance(t, ast.Name) and t.id == "__all__" for t in nd.targets):
+            alls = [e.value for e in nd.value.elts]
+    if len(defined) != n:
+        return "the module defines %r for %d input entries" % (defined, n)
+    if sorted(alls) != sorted(defined):
+        return "__all__ %r does not list exactly the defined symbols %r" % (alls, defined)
+    uses_optional = any(isinstance(x, ast.Name) and x.id == "Optional" for x in ast.walk(mod))
+    if infer and uses_optional and not any(isinstance(nd, ast.ImportFrom) and nd.module == "typing" for nd in mod.body):
+        return "Optional is used but typing is not imported although import inference is on"
+    try:
+        compile(mod, "<gen>", "exec")
+    except Exception as e:
+        return "the generated module does not compile: %s" % e
+    return ""
+
+
+ob("C19", "K3.module_defines.quick", {"kind": R(0, 2), "infer": BOOL, "n": R(1, 2), "i0": R(0, 0), "i1": R(0, 1)}, T=400, tpath=60,
+   funcs=["cdd.compound.gen_utils.gen_module", "cdd.compound.gen_utils.get_functions_and_classes", "cdd.shared.ast_utils.infer_imports", "cdd.shared.ast_utils.optimise_imports"],
+   bound="gen_module on 1-2 class entries using Optional[int] (second name 'aa'/'ai'), emit kind class/function/argparse, --emit-and-infer-imports on/off "
+         "(solver-enumerated): one defined symbol per entry, __all__ == defined, typing imported when inferring, module compiles")(module_defines)
+ob("C19", "K3.module_defines", {"kind": R(0, 2), "infer": BOOL, "n": R(1, 2), "i0": R(0, 2), "i1": R(0, 5)}, T=1500, tpath=60, tier="thorough",
+   funcs=["cdd.compound.gen_utils.gen_module", "cdd.compound.gen_utils.get_functions_and_classes", "cdd.shared.ast_utils.infer_imports", "cdd.shared.ast_utils.optimise_imports"],
+   bound="gen_module on 1-2 class entries using Optional[int] (names over the finite alphabet), emit kind class/function/argparse, --emit-and-infer-imports on/off "
+         "(solver-enumerated): one defined symbol per entry, __all__ == defined, typing imported when inferring, module compiles")(module_defines)
